@@ -513,6 +513,13 @@ def sig_of(text):
     return re.sub(r"\d+", "N", text)[:160]
 
 
+def field_diff(a, b):
+    """names of the output fields (r, v, o, n, z, b) in which two result lines differ"""
+    da = dict(x.split("=", 1) for x in a.split() if "=" in x)
+    db = dict(x.split("=", 1) for x in b.split() if "=" in x)
+    return ",".join(k for k in sorted(set(da) | set(db)) if da.get(k) != db.get(k)) or "text"
+
+
 def san_summary(stderr):
     m = re.search(r"SUMMARY: (\w+): ([\w-]+) \S*?([\w.]+):\d+ in (\w+)", stderr)
     if m:
@@ -568,7 +575,7 @@ def check_lines(harness, driver, lines, max_fail=8):
         elif h != exp and not (isinstance(exp, tuple) and h in exp):
             if len(fails) < max_fail:
                 e = exp if isinstance(exp, str) else exp[0]
-                fails.append(("oracle", "str: %s reference says %s, code says %s" % (op, sig_of(e.split(" o=")[0]), sig_of(h.split(" o=")[0])),
+                fails.append(("oracle", "str: %s differs from the reference in %s" % (op, field_diff(e, h)),
                               "%s: reference implementation expects '%s', real code returned '%s'" % (ln, e, h), [ln]))
             continue
         if h != m and len(fails) < max_fail:
@@ -596,14 +603,27 @@ def _task(args):
         lines = gen_long(random.Random(param[0]), param[1]); n_inputs = len(lines)
     elif kind == "lines":
         lines = param; n_inputs = len(lines)
-    fails, stats = check_lines(harness, driver, lines)
+    fails, stats = check_lines(harness, driver, lines, max_fail=400)
+    seen, keep = {}, []
+    for f in sorted(fails, key=lambda f: (len(f[3][0]) if f[3] else 0, f[3])):   # shortest input first, 2 per shape
+        if seen.get((f[0], f[1]), 0) < 2:
+            seen[(f[0], f[1])] = seen.get((f[0], f[1]), 0) + 1
+            keep.append(f)
+    fails = keep
     return kind, n_inputs, len(lines), fails, stats, lines[:1] + lines[len(lines) // 2:len(lines) // 2 + 1]
 
 
 class Spec:
     props_module = "Mhd.Props.C17"
     lean_targets = ["Mhd.Props.C17", "drv_str"]
-    required_theorems = []
+    required_theorems = ["Mhd.C17." + n for n in (
+        "strToUint64N_exact", "strToUint64_exact", "parseDec_zero_iff", "strxToUint32N_exact", "strxToUint64N_exact",
+        "strxToUint32_exact", "strxToUint64_exact", "uint64ToStr_exact", "uint16ToStr_exact", "print_parse_roundtrip",
+        "binToHex_exact", "hexToBin_exact", "hexToBin_binToHex", "pctDecodeStrictN_exact", "pctDecodeLenientN_exact",
+        "pctDecodeInPlaceStrict_exact", "pctDecodeInPlaceLenient_exact", "inPlaceStrict_eq_copying",
+        "inPlaceLenient_eq_copying", "unquote_exact", "quote_exact", "unquoteSpec_quoteSpec", "equalQuoted_iff",
+        "equalCaselessQuoted_exact", "base64ToBinN_exact", "charsEqualCaseless_lower", "equalCaseless_exact",
+        "nofault_parse", "nofault_print", "nofault_codecs", "nofault_inplace", "nofault_compare")]
     trusted_base = ["Lean 4 kernel", "axioms: propext, Classical.choice, Quot.sound at most (audited per theorem)",
                     "hand-written model lean/Mhd/Model/Str*.lean tied to mhd_str.c by this run's correspondence",
                     "reference specifications in lean/Mhd/Proofs/StrSpec.lean (short recursive functions), cross-checked by the "
@@ -655,7 +675,7 @@ class Spec:
 
     def explore(self, ctx, boost):
         tasks = [(self.harness, self.driver, k, p) for k, p in self.tasks(ctx, boost)]
-        failures, stats = [], {}
+        failures, stats, nsig, allf = [], {}, {}, []
         counts = {"strings": [0, 0], "chars": [0, 0], "u16": [0, 0], "numbers": [0, 0], "long": [0, 0], "lines": [0, 0]}
         samples = []
         with multiprocessing.Pool(min(vlib.NCPU, 16)) as pool:
@@ -663,11 +683,15 @@ class Spec:
                 counts[kind][0] += n_inputs; counts[kind][1] += n_lines
                 for op, (a, b, c) in st.items():
                     s = stats.setdefault(op, [0, 0, 0]); s[0] += a; s[1] += b; s[2] += c
-                for f in fails:
-                    if len(failures) < 200:
-                        failures.append(vlib.Failure(f[0], f[1], f[2], f[3], "str"))
+                allf += fails
                 if len(samples) < 6 and kind in ("strings", "long", "numbers") and smp:
                     samples.append(smp[-1])
+        # deterministic choice: per shape the three shortest (then lexicographically smallest) inputs
+        for f in sorted(allf, key=lambda f: (f[1], len(f[3][0]) if f[3] else 0, f[3])):
+            k = (f[0], f[1])
+            if nsig.get(k, 0) < 3:
+                nsig[k] = nsig.get(k, 0) + 1
+                failures.append(vlib.Failure(f[0], f[1], f[2], f[3], "str"))
         failures.sort(key=lambda f: (0 if f.concrete() else 1, f.signature, len(f.input[0]) if f.input else 0, f.input))
         evals = sum(v[1] for v in counts.values())
         nz = sum(v[1] for v in stats.values())
